@@ -30,26 +30,27 @@ import (
 // different generator weights on the same run.
 
 type ValOp struct {
-	Actor string      `json:"actor"` // "a0","a1" application goroutines, "k0".."k2" controllers
-	Kind  string      `json:"kind"`  // aset aget aconn kget kacc kput ksub kunsub kclose
-	Chars []int       `json:"chars"` // indices into the scenario's characteristic list; -1 = a missing id
-	Val   interface{} `json:"val,omitempty"` // C12: an arbitrary JSON value, used as it is
-	K     int         `json:"k,omitempty"`   // other properties: mapped to an in-range value of the characteristic at run time
-	Str   string      `json:"str,omitempty"` // content for string formats
-	Same  bool        `json:"same,omitempty"` // write the value the characteristic currently has
-	Over  int         `json:"over,omitempty"` // 1: write a value above the declared maximum, 2: below the minimum (it is clamped)
+	Actor  string      `json:"actor"`             // "a0","a1" application goroutines, "k0".."k2" controllers
+	Kind   string      `json:"kind"`              // aset aget aconn kget kacc kput ksub kunsub kclose
+	Chars  []int       `json:"chars"`             // indices into the scenario's characteristic list; -1 = a missing id
+	Val    interface{} `json:"val,omitempty"`     // C12: an arbitrary JSON value, used as it is
+	K      int         `json:"k,omitempty"`       // other properties: mapped to an in-range value of the characteristic at run time
+	Str    string      `json:"str,omitempty"`     // content for string formats
+	Same   bool        `json:"same,omitempty"`    // write the value the characteristic currently has
+	EvForm int         `json:"ev_form,omitempty"` // ksub/kunsub: 0 boolean, 1 number 1/0, 2 string "1"/"0", 3 string "true"/"false"
+	Over   int         `json:"over,omitempty"`    // 1: write a value above the declared maximum, 2: below the minimum (it is clamped)
 }
 
 type ValScenario struct {
-	Prop    string           `json:"prop"`
-	Seed    uint64           `json:"seed"`
-	Sel     []int            `json:"sel"`   // registry indices used
-	PerAcc  int              `json:"per_acc"` // characteristics per accessory
-	Perms   map[int][]string `json:"perms,omitempty"` // permission overrides by position in Sel
-	NCtl    int              `json:"n_ctl"`
-	NApp    int              `json:"n_app"`
-	Ops     []ValOp          `json:"ops"`
-	Sched   []uint16         `json:"sched"`
+	Prop   string           `json:"prop"`
+	Seed   uint64           `json:"seed"`
+	Sel    []int            `json:"sel"`             // registry indices used
+	PerAcc int              `json:"per_acc"`         // characteristics per accessory
+	Perms  map[int][]string `json:"perms,omitempty"` // permission overrides by position in Sel
+	NCtl   int              `json:"n_ctl"`
+	NApp   int              `json:"n_app"`
+	Ops    []ValOp          `json:"ops"`
+	Sched  []uint16         `json:"sched"`
 }
 
 // charInfo is what the generator knows about a registry entry.
@@ -211,6 +212,14 @@ func genVal(prop string) func(rt *rapid.T) interface{} {
 	return func(rt *rapid.T) interface{} {
 		info := registryInfo()
 		sc := &ValScenario{Prop: prop, Seed: rapid.Uint64().Draw(rt, "seed")}
+		// constructors with unusual behaviour are picked more often than chance would
+		special := []int{}
+		for i, r := range charRegistry {
+			switch r.Name {
+			case "ProgrammableSwitchEvent", "Identify", "Name", "Logs", "LockControlPoint", "Version", "ActiveIdentifier", "DigitalZoom", "TargetTiltAngle":
+				special = append(special, i)
+			}
+		}
 		// selection of constructors
 		nsel := rapid.IntRange(3, 12).Draw(rt, "nsel")
 		switch rapid.IntRange(0, 7).Draw(rt, "bridge") {
@@ -225,6 +234,11 @@ func genVal(prop string) func(rt *rapid.T) interface{} {
 			}
 		} else {
 			seen := map[int]bool{}
+			if len(special) > 0 && rapid.IntRange(0, 2).Draw(rt, "special") == 0 {
+				i := special[rapid.IntRange(0, len(special)-1).Draw(rt, "sp")]
+				seen[i] = true
+				sc.Sel = append(sc.Sel, i)
+			}
 			for len(sc.Sel) < nsel {
 				i := rapid.IntRange(0, len(info)-1).Draw(rt, "sel")
 				if !seen[i] && info[i].Format != "" {
@@ -274,6 +288,9 @@ func genVal(prop string) func(rt *rapid.T) interface{} {
 			nwork = len(sc.Sel)
 		}
 		work := make([]int, 0, nwork)
+		if rapid.Bool().Draw(rt, "work0") {
+			work = append(work, 0)
+		}
 		for len(work) < nwork {
 			p := rapid.IntRange(0, len(sc.Sel)-1).Draw(rt, "work")
 			dup := false
@@ -336,8 +353,11 @@ func genVal(prop string) func(rt *rapid.T) interface{} {
 						}
 						op.Str = rapid.StringOfN(rapid.RuneFrom(strAlphabet), 0, n, -1).Draw(rt, "str")
 					}
-					if prop == "C10" && rapid.IntRange(0, 5).Draw(rt, "same") == 0 {
+					if (prop == "C10" || prop == "C11") && rapid.IntRange(0, 5).Draw(rt, "same") == 0 {
 						op.Same = true
+					}
+					if (kind == "ksub" || kind == "kunsub") && (prop == "C11" || prop == "C10") && rapid.IntRange(0, 3).Draw(rt, "evform") == 0 {
+						op.EvForm = rapid.IntRange(1, 3).Draw(rt, "evformk")
 					}
 					if prop == "C10" && !op.Same && rapid.IntRange(0, 4).Draw(rt, "over") == 0 {
 						op.Over = rapid.IntRange(1, 2).Draw(rt, "overdir")
@@ -389,6 +409,7 @@ type valSubOp struct {
 	on       bool
 	inv, ret uint64
 	accepted bool
+	nonBool  bool // ev was not a JSON boolean: whether that subscribes is not specified
 }
 
 type valWorld struct {
@@ -994,7 +1015,16 @@ func (vw *valWorld) ctlOp(name string, cl *ref.Client, c *core.Conn, op ValOp) {
 	case "ksub", "kunsub":
 		vc := vw.chars[op.Chars[0]]
 		on := op.Kind == "ksub"
-		body, _ := json.Marshal(map[string]interface{}{"characteristics": []map[string]interface{}{{"aid": vc.aid, "iid": vc.c.ID, "ev": on}}})
+		var evv interface{} = on
+		switch op.EvForm {
+		case 1:
+			evv = map[bool]int{true: 1, false: 0}[on]
+		case 2:
+			evv = map[bool]string{true: "1", false: "0"}[on]
+		case 3:
+			evv = map[bool]string{true: "true", false: "false"}[on]
+		}
+		body, _ := json.Marshal(map[string]interface{}{"characteristics": []map[string]interface{}{{"aid": vc.aid, "iid": vc.c.ID, "ev": evv}}})
 		so := &valSubOp{conn: c.ID, pos: vc.pos, on: on, inv: s.Seq()}
 		m, err := cl.Do("PUT", "/characteristics", ref.CTypeJSON, body)
 		so.ret = s.Seq()
@@ -1003,6 +1033,7 @@ func (vw *valWorld) ctlOp(name string, cl *ref.Client, c *core.Conn, op ValOp) {
 			return
 		}
 		so.accepted = hasPerm(vc.perm, "ev")
+		so.nonBool = op.EvForm != 0
 		vw.subs = append(vw.subs, so)
 		if !hasPerm(vc.perm, "ev") && vw.on("C11") {
 			var doc charsDoc
@@ -1455,6 +1486,16 @@ func (vw *valWorld) expectation(x int, wr *valWrite, changes int) (must, mustNot
 	anySubBeforeEnd := false
 	for _, so := range vw.subs {
 		if so.conn != x || so.pos != wr.pos || !so.accepted {
+			continue
+		}
+		if so.nonBool {
+			// a non-boolean ev may or may not be honoured: it makes the state unknown from then on
+			if so.inv < wr.ret || wr.ret == 0 {
+				overlap = true
+				if so.on {
+					anySubBeforeEnd = true
+				}
+			}
 			continue
 		}
 		if so.ret != 0 && so.ret < wr.inv {
